@@ -5,10 +5,13 @@ import (
 	"fmt"
 	"strings"
 
+	res "github.com/jirenius/go-res"
 	"github.com/jirenius/go-res/resprot"
 
+	"verif/envnats"
 	"verif/ref"
 	"verif/scen"
+	"verif/vsched"
 )
 
 func init() {
@@ -335,12 +338,92 @@ func runC04(c *seqCtx) {
 			}
 		}
 	}
+	// bursts: n requests delivered to one resource before its worker gets to run (one worker), mixed with
+	// requests to a second resource: each request is answered exactly once, in order per resource
+	for _, n := range []int{40, 300, 700} {
+		if c.Mine() {
+			in := fmt.Sprintf("burst|%d", n)
+			c04Burst(n, func(desc string) { c.Fail("C04", desc+" ["+in+"]", in) })
+			c.Eval(in)
+			c.out.Transitions += int64(n)
+		}
+	}
 	c.Sample("call.m|exact|http|setmeta,timeout,ok => result with meta")
 	c.out.States = c.out.DistinctNontrivial
 }
 
+// c04Burst delivers n get requests for t.r (and every 7th time one for t.q) while the single worker cannot run,
+// then lets the service work them off.
+func c04Burst(n int, emit func(desc string)) {
+	var pubs []envnats.Msg
+	r := scen.RunSeq(func() {
+		conn := envnats.New()
+		conn.Quiet = true
+		conn.KeepPubs = true
+		s := res.NewService("t")
+		s.SetLogger(nil)
+		s.SetWorkerCount(1)
+		s.SetInChannelSize(n + n/7 + 8)
+		for _, name := range []string{"r", "q"} {
+			name := name
+			s.Handle(name, res.GetModel(func(r res.ModelRequest) { r.Model(map[string]string{"from": name, "q": r.Query()}) }))
+		}
+		served := make(chan struct{}, 1)
+		s.SetOnServe(func(*res.Service) { vsched.Send(served, struct{}{}) })
+		vsched.Go("serve", func() { s.Serve(conn) })
+		vsched.Recv(served)
+		n0 := len(conn.Pubs)
+		for i := 0; i < n; i++ {
+			conn.Inject("get.t.r", fmt.Sprintf("R%d", i), []byte(fmt.Sprintf(`{"query":"i=%d"}`, i)))
+			if i%7 == 3 {
+				conn.Inject("get.t.q", fmt.Sprintf("Q%d", i), []byte(fmt.Sprintf(`{"query":"i=%d"}`, i)))
+			}
+		}
+		vsched.AwaitQuiescence()
+		pubs = append(pubs, conn.Pubs[n0:]...)
+	})
+	for _, p := range r.Panics {
+		emit("a thread of the service panicked: " + firstLineOf(p))
+	}
+	if r.Deadlock {
+		emit("the service deadlocked")
+	}
+	count := map[string]int{}
+	last := map[byte]int{'R': -1, 'Q': -1}
+	for _, m := range pubs {
+		if len(m.Subject) < 2 || (m.Subject[0] != 'R' && m.Subject[0] != 'Q') {
+			continue
+		}
+		count[m.Subject]++
+		var i int
+		fmt.Sscanf(m.Subject[1:], "%d", &i)
+		from := map[byte]string{'R': "r", 'Q': "q"}[m.Subject[0]]
+		if want := fmt.Sprintf(`{"result":{"model":{"from":"%s","q":"i=%d"}}}`, from, i); m.Data != want {
+			emit(fmt.Sprintf("request %s of a burst of %d answered with %s, want %s", m.Subject, n, m.Data, want))
+		}
+		if i <= last[m.Subject[0]] {
+			emit(fmt.Sprintf("request %s of a burst of %d answered after request %d of the same resource", m.Subject, n, last[m.Subject[0]]))
+		}
+		last[m.Subject[0]] = i
+	}
+	for i := 0; i < n; i++ {
+		if k := fmt.Sprintf("R%d", i); count[k] != 1 {
+			emit(fmt.Sprintf("request %s of a burst of %d requests to one resource got %d responses, want exactly 1", k, n, count[k]))
+		}
+		if k := fmt.Sprintf("Q%d", i); i%7 == 3 && count[k] != 1 {
+			emit(fmt.Sprintf("request %s (second resource) during a burst of %d got %d responses, want exactly 1", k, n, count[k]))
+		}
+	}
+}
+
 func replayC04(input string) []string {
 	var out []string
+	if strings.HasPrefix(input, "burst|") {
+		var n int
+		fmt.Sscanf(input, "burst|%d", &n)
+		c04Burst(n, func(desc string) { out = append(out, "C04: "+desc) })
+		return out
+	}
 	c04Judge(parseC04(input), func(prop, desc string) { out = append(out, prop+": "+desc) })
 	return out
 }
